@@ -454,7 +454,7 @@ ALARM_CATS = tuple((os.environ.get("CKB_VERIF_ATOM_CATS") or "call,recv,arg,dec,
 _CAT_TEXT = {"call": "no longer calls", "recv": "no longer applies (receiver)", "arg": "no longer passes (argument form)", "dec": "no longer tests",
              "must": "rejection test no longer on every successful path:", "mustcall": "no longer on every successful path: call of", "mustq": "fallible step no longer on every successful path:", "new": "no longer builds",
              "fld": "no longer initialises (field form)", "set": "no longer assigns (field form)",
-             "grd": "is no longer made / called under exactly the reviewed conditions:", "arm": "no longer yields, for this variant,", "grdn": "is made / called at fewer places under the same conditions:", "ord": "no longer completes the first before it calls the second:"}
+             "grd": "is no longer made / called under exactly the reviewed conditions:", "arm": "no longer yields, for this variant,", "grdn": "is made / called at fewer places under the same conditions:", "byp": "can now be skipped after other tests than the reviewed ones:", "ord": "no longer completes the first before it calls the second:"}
 
 
 def _crate(path):
